@@ -25,8 +25,9 @@ class Fn:
 
     def __init__(self, path, ret=None, requires=(), ensures=(), loops=None, panics=None, valid='true',
                  closures=None, hints=(), attrs=(), rewrites=(), level='L0', r3_skip=(), inherent=False,
-                 shape=None, pre_body='', decreases=None, name_as=None, generics=None, no_unwind=False,
-                 sig_sub=(), mut_params=(), float_casts=(), companion=None):
+                 shape=None, pre_body='', decreases=None, name_as=None, generics=None, no_unwind=None,
+                 sig_sub=(), mut_params=(), float_casts=(), companion=None, rej_clause=True):
+        self.rej_clause = rej_clause
         self.companion = companion
         self.float_casts = tuple(float_casts)
         self.path = path
@@ -46,6 +47,7 @@ class Fn:
         self.shape = shape                  # optional explicit fingerprint {'loops':n,'panics':n,'closures':n}
         self.pre_body = pre_body
         self.decreases = decreases
+        self.no_unwind = no_unwind if no_unwind is not False else None
         self.name_as = name_as
         self.sig_sub = list(sig_sub)        # (regex, repl) on the signature, logged
         self.short = split_path(path)[-1]
@@ -110,11 +112,21 @@ def _split_sig(sig):
     return head, ret, where
 
 
-def render_contract(fn, lines_out, stub=False):
+def all_requires(fn):
+    """declared requires + the rejection-tolerance clause (DESIGN §3.4): a REJECTing function may only be
+    called with a valid argument, or from a context that itself tolerates a rejection"""
+    req = list(fn.requires)
+    if fn.valid.strip() != 'true' and fn.rej_clause:
+        req.append('%s.no_valid_input_rejected:: (%s) || may_reject()' % (fn.short, fn.valid))
+    return req
+
+
+def render_contract(fn, lines_out, stub=False, trait_impl=False):
     out = []
-    if fn.requires:
+    reqs = [] if trait_impl else all_requires(fn)
+    if reqs:
         out.append('    requires')
-        for i, s in enumerate(fn.requires):
+        for i, s in enumerate(reqs):
             cid, e = clause(s, '%s.requires.%d' % (fn.short, i + 1))
             out.append('        %s, //@[%s]' % (e, cid))
     if fn.ensures:
@@ -204,7 +216,7 @@ class Gen:
         if stub:
             lines.append('#[verifier::external_body]')
         lines.append('%s%s%s %s' % (vis, head, retdecl, where))
-        lines += render_contract(fn, lines, stub)
+        lines += render_contract(fn, lines, stub, trait_impl=is_trait_impl)
         if stub:
             lines.append('{ unimplemented!() }')
         else:
@@ -450,8 +462,8 @@ class Gen:
                 parts += texts
                 parts.append('}')
                 if is_trait:
-                    comp = r13_companion(h)
                     fobj = [f for f in unit.use + unit.prove if f.path == key[1]][0]
+                    comp = r13_companion(h, fobj)
                     if fobj.companion:
                         comp = fobj.companion
                     if comp:
@@ -471,33 +483,49 @@ _OPS = {'Add': 'add', 'Sub': 'sub', 'Mul': 'mul', 'Div': 'div', 'Rem': 'rem', 'N
         'AddAssign': 'add_assign', 'SubAssign': 'sub_assign', 'MulAssign': 'mul_assign', 'DivAssign': 'div_assign'}
 
 
-def r13_companion(header):
+def _req_expr(fobj):
+    if fobj is None:
+        return 'true'
+    cs = [clause(c, '')[1] for c in all_requires(fobj)]
+    if not cs:
+        return 'true'
+    e = ' && '.join('(%s)' % c for c in cs)
+    # spec-mode view of `&mut self` receivers
+    return e.replace('*old(self)', '*self').replace('old(self)', 'self')
+
+
+def r13_companion(header, fobj=None):
+    req = _req_expr(fobj)
     ma = re.match(r'impl(<[^>]*>)?\s+(?:ops::|std::ops::|core::ops::)?(Add|Sub|Mul|Div|Rem)Assign(?:<(.*)>)?\s+for\s+(.+)$', header)
     if ma:
         gen, tr, rhs, ty = ma.group(1) or '', ma.group(2), ma.group(3), ma.group(4).strip()
         m = _OPS[tr] + '_assign'
         rhs = rhs or ty
-        return ('impl%s vstd::std_specs::ops::%sAssignSpecImpl<%s> for %s {\n'
-                '    open spec fn obeys_%s_spec() -> bool { false }\n'
-                '    open spec fn %s_req(&self, rhs: %s) -> bool { true }\n'
-                '    open spec fn %s_spec(&self, rhs: %s) -> &Self { arbitrary() }\n}'
-                % (gen, tr, rhs, ty, m, m, rhs, m, rhs))
+        return '\n'.join([
+            'impl%s vstd::std_specs::ops::%sAssignSpecImpl<%s> for %s {' % (gen, tr, rhs, ty),
+            '    open spec fn obeys_%s_spec() -> bool { false }' % m,
+            '    open spec fn %s_req(&self, other: %s) -> bool { %s }' % (m, rhs, req),
+            '    open spec fn %s_spec(&self, other: %s) -> &Self { arbitrary() }' % (m, rhs),
+            '}'])
     mk = re.match(r'impl(<[^>]*>)?\s+(?:ops::|std::ops::|core::ops::)?(Add|Sub|Mul|Div|Rem|Neg)(?:<(.*)>)?\s+for\s+(.+)$', header)
     if not mk:
         return None
     gen, tr, rhs, ty = mk.group(1) or '', mk.group(2), mk.group(3), mk.group(4).strip()
     m = _OPS[tr]
     if tr == 'Neg':
-        return ('impl%s vstd::std_specs::ops::NegSpecImpl for %s {\n'
-                '    open spec fn obeys_neg_spec() -> bool { false }\n'
-                '    open spec fn neg_req(self) -> bool { true }\n'
-                '    open spec fn neg_spec(self) -> Self::Output { arbitrary() }\n}' % (gen, ty))
+        return '\n'.join([
+            'impl%s vstd::std_specs::ops::NegSpecImpl for %s {' % (gen, ty),
+            '    open spec fn obeys_neg_spec() -> bool { false }',
+            '    open spec fn neg_req(self) -> bool { %s }' % req,
+            '    open spec fn neg_spec(self) -> Self::Output { arbitrary() }',
+            '}'])
     rhs = rhs or ty
-    return ('impl%s vstd::std_specs::ops::%sSpecImpl<%s> for %s {\n'
-            '    open spec fn obeys_%s_spec() -> bool { false }\n'
-            '    open spec fn %s_req(self, rhs: %s) -> bool { true }\n'
-            '    open spec fn %s_spec(self, rhs: %s) -> Self::Output { arbitrary() }\n}'
-            % (gen, tr, rhs, ty, m, m, rhs, m, rhs))
+    return '\n'.join([
+        'impl%s vstd::std_specs::ops::%sSpecImpl<%s> for %s {' % (gen, tr, rhs, ty),
+        '    open spec fn obeys_%s_spec() -> bool { false }' % m,
+        '    open spec fn %s_req(self, other: %s) -> bool { %s }' % (m, rhs, req),
+        '    open spec fn %s_spec(self, other: %s) -> Self::Output { arbitrary() }' % (m, rhs),
+        '}'])
 
 
 def line_map(text):
